@@ -283,6 +283,28 @@ func checkC15(c *Ctx) {
 		r.OK("C15.5", "no encoder result aliases a pooled buffer", token.NoPos, fmt.Sprintf("%d function(s) scanned", len(encFns)))
 	}
 
+	// ---- C15.6 a message handed to its own goroutine owns its bytes: the buffer a loop receives into and passes to a
+	// goroutine is allocated per iteration (the next receive must not overwrite a message that is still being decoded)
+	r.Rule("C15.6", "a receive buffer passed to a per-message goroutine is allocated per message", 1)
+	nGo := 0
+	for _, f := range encFns {
+		for _, v := range sharedLoopBuffers(f) {
+			r.Bad("C15.6", fnName(f)+": goroutine per message shares the receive buffer "+firstN(v.buf, 40), v.g.Pos(), fnName(f),
+				"the loop reads the next message into "+firstN(v.buf, 40)+" (allocated once, outside the loop) while the goroutine started for the previous message still decodes a slice of it: a query is decoded as another requester's query and the response goes out under the wrong exchange")
+		}
+		eachInstr(f, func(in ssa.Instruction) {
+			if g, ok := in.(*ssa.Go); ok {
+				if again, _ := reach(f, g, isInstr(g), nil, nil); again {
+					nGo++
+					r.OK("C15.6", fnName(f)+": goroutine per message", g.Pos(), "every buffer it receives that the loop reads into is allocated inside the loop")
+				}
+			}
+		})
+	}
+	if nGo == 0 {
+		r.Unk("C15.6", "per-message goroutines", token.NoPos, "", "no goroutine started in a loop found in the DNS registrar packages (RecvAndRespond has one)")
+	}
+
 	// ---- C15.4 validated names
 	r.Rule("C15.4", "names sent by requester/responder are validated names", 3)
 	for _, f := range c.funcsOfPkgs("pkg/registrars/dns-registrar/requester", "pkg/registrars/dns-registrar/responder") {
@@ -550,4 +572,108 @@ func isRepresentative(v ssa.Value) bool {
 		}
 	}
 	return false
+}
+
+
+// sharedLoopBuffers: go statements inside a loop of f that receive (as an argument or captured variable) memory of a
+// byte buffer which is allocated outside that loop and which a Read*/Recv* call inside the loop fills.
+type sharedBuf struct {
+	g   *ssa.Go
+	buf string
+}
+
+func sharedLoopBuffers(f *ssa.Function) []sharedBuf {
+	var out []sharedBuf
+	inLoopWith := func(a, g ssa.Instruction) bool {
+		fwd, _ := reach(f, a, isInstr(g), nil, nil)
+		back, _ := reach(f, g, isInstr(a), nil, nil)
+		return (fwd && back) || a == g
+	}
+	// backing buffers of v: MakeSlice values and array allocations reached through slices, loads and stores of locals
+	var roots func(v ssa.Value, d int, seen map[ssa.Value]bool) []ssa.Value
+	roots = func(v ssa.Value, d int, seen map[ssa.Value]bool) []ssa.Value {
+		if v == nil || d > 8 || seen[v] {
+			return nil
+		}
+		seen[v] = true
+		switch x := v.(type) {
+		case *ssa.MakeSlice:
+			return []ssa.Value{x}
+		case *ssa.Slice:
+			return roots(x.X, d+1, seen)
+		case *ssa.Alloc:
+			if p, ok := x.Type().Underlying().(*types.Pointer); ok {
+				if _, isArr := p.Elem().Underlying().(*types.Array); isArr {
+					return []ssa.Value{x}
+				}
+			}
+			var rs []ssa.Value
+			if x.Referrers() != nil {
+				for _, ref := range *x.Referrers() {
+					if st, ok := ref.(*ssa.Store); ok && st.Addr == ssa.Value(x) {
+						rs = append(rs, roots(st.Val, d+1, seen)...)
+					}
+				}
+			}
+			return rs
+		case *ssa.UnOp:
+			return roots(x.X, d+1, seen)
+		case *ssa.Phi:
+			var rs []ssa.Value
+			for _, e := range x.Edges {
+				rs = append(rs, roots(e, d+1, seen)...)
+			}
+			return rs
+		case *ssa.ChangeType:
+			return roots(x.X, d+1, seen)
+		case *ssa.Convert:
+			return roots(x.X, d+1, seen)
+		}
+		return nil
+	}
+	eachInstr(f, func(in ssa.Instruction) {
+		g, ok := in.(*ssa.Go)
+		if !ok {
+			return
+		}
+		if again, _ := reach(f, g, isInstr(g), nil, nil); !again {
+			return
+		}
+		var handed []ssa.Value
+		handed = append(handed, g.Call.Args...)
+		if mc, ok := g.Call.Value.(*ssa.MakeClosure); ok {
+			handed = append(handed, mc.Bindings...)
+		}
+		for _, h := range handed {
+			for _, root := range roots(h, 0, map[ssa.Value]bool{}) {
+				ri, ok := root.(ssa.Instruction)
+				if !ok || inLoopWith(ri, g) {
+					continue // allocated per iteration
+				}
+				// filled by a read in the loop?
+				filled := false
+				eachInstr(f, func(in2 ssa.Instruction) {
+					call, ok := in2.(*ssa.Call)
+					if !ok || !inLoopWith(call, g) {
+						return
+					}
+					sh := calleeShort(&call.Call)
+					if !strings.HasPrefix(sh, "Read") && !strings.HasPrefix(sh, "Recv") {
+						return
+					}
+					for _, a := range call.Call.Args {
+						for _, r2 := range roots(a, 0, map[ssa.Value]bool{}) {
+							if r2 == root {
+								filled = true
+							}
+						}
+					}
+				})
+				if filled {
+					out = append(out, sharedBuf{g, pathOf(root)})
+				}
+			}
+		}
+	})
+	return out
 }
